@@ -628,6 +628,7 @@ func (a *aeadView) Decrypt(data, key []byte) ([]byte, error) {
 		call.DataFP = refimpl.FP(out)
 		if len(out) == 32 {
 			a.w.retain("aead.dec", out)
+			a.w.lastKeyOut, a.w.lastKeyOp = out, c.Op
 		}
 	}
 	a.w.AEADCalls = append(a.w.AEADCalls, call)
@@ -659,6 +660,9 @@ func (InjectedPanic) Error() string { return "verif: injected panic" }
 func (w *World) heapKeyOf(op *OpRec, key []byte) bool {
 	if len(key) == 0 {
 		return false
+	}
+	if w.lastKeyOp == op && len(w.lastKeyOut) > 0 && &w.lastKeyOut[0] == &key[0] {
+		return true // engines that do not retain buffers (C09)
 	}
 	for i := len(w.Retained) - 1; i >= 0; i-- {
 		r := w.Retained[i]
